@@ -124,6 +124,12 @@ def run(ctx):
                 _La.all_lanelets_by_merging_successors_from_lanelet(first, net)
                 _La.all_lanelets_by_merging_predecessors_from_lanelet(last, net)
                 _La.merge_lanelets(first, net.find_lanelet_by_id(8002))
+            ring = net.find_lanelet_by_id(8101)
+            if ring is not None:
+                # a closed loop (ring road): the merge goes once around and comes back to where it started
+                _La.all_lanelets_by_merging_successors_from_lanelet(ring, net, max_length=1e4)
+                _La.all_lanelets_by_merging_predecessors_from_lanelet(ring, net, max_length=1e4)
+                _La.merge_lanelets(net.find_lanelet_by_id(8104), ring)
         elif op == "light_state":
             for tl in net.traffic_lights:
                 tl.get_state_at_time_step(t)
@@ -252,6 +258,13 @@ def run(ctx):
             time_step=0, position=np.array([25.0, base_y + 1.5]), orientation=0.0), TrajectoryPrediction(Trajectory(1, [
                 st.KSState(time_step=1, position=np.array([26.0, base_y + 1.5]), orientation=0.0, velocity=1.0,
                            steering_angle=0.0)]), Rectangle(2.0, 1.0))))
+        # a ring road of four quarter circles: 8101 -> 8102 -> 8103 -> 8104 -> 8101
+        import math as _m
+        for q_ in range(4):
+            ph = [q_ * _m.pi / 2 + k_ * _m.pi / 10 for k_ in range(6)]
+            arc_ = lambda rad: np.array([[900.0 + rad * _m.cos(a_), 900.0 + rad * _m.sin(a_)] for a_ in ph])  # noqa
+            sc.add_objects(_La(arc_(18.5), arc_(20.0), arc_(21.5), 8101 + q_, predecessor=[8101 + (q_ - 1) % 4],
+                               successor=[8101 + (q_ + 1) % 4]))
         sc.assign_obstacles_to_lanelets(obstacle_ids={nid + 6, nid + 7})
         ctx.feature("registered-obstacles-on-a-lanelet-chain")
         # uncertain positions of every region kind under an OFF-CENTRE obstacle shape (the region objects stored in the
